@@ -81,6 +81,39 @@ CLAIMS = {
               "classification of handlers is a hand-written oracle by handler name (DESIGN.md App. C); sessions are "
               "injected into the cache actor, the login flow is not exercised"),
         technique="Lean 4 theorem (decide +kernel over generated tables) + exhaustive differential correspondence"),
+    "C07": dict(
+        category="proof",
+        text=("Theorems (lean/RNacos/Props/C07.lean): the three hand-written copies of the match over ClientRequest - leader "
+              "apply, follower do_send, start-up load_log - are re-extracted by the translator on every run as dispatch tables "
+              "(variant -> target component, message expression, delivery syntax stripped) and proved equal row by row and "
+              "complete for the enum by kernel evaluation (paths_same_dispatch, every_variant_has_a_row, "
+              "rows_only_for_variants); for ARBITRARY behaviour of the seven components, equal tables give equal states for "
+              "every committed request sequence and every split into follower batches (any_batching_same_state) and for "
+              "replay (replay_same_state); the one way the paths differ - a malformed ConfigFullValue ends a follower batch - "
+              "is a visible counter-example theorem. Tie: translator + correspondence on three complete nodes (child "
+              "processes with the real config_factory wiring) fed the same requests through the three RaftStorage paths, "
+              "dumps of served state compared."),
+        note=("trusted: Lean kernel; translator (purpose-built recogniser of raftdata.rs, fails on unknown shapes); the "
+              "components are parameters of the theorems (their own rules: C09, C19, ...); harness follows async-raft's call "
+              "order; MCP/cache requests covered by the table theorem only; 1 open finding F23 (node-local priority "
+              "metadata of persistent instances)"),
+        technique="translator-regenerated tables + Lean 4 theorem (kernel-evaluated table equality, refinement for any component semantics) + differential correspondence across three real nodes"),
+    "C01": dict(
+        category="proof",
+        text=("Theorems (lean/RNacos/Props/C01.lean): restart = snapshot load + replay of the log suffix reproduces the state "
+              "of having applied the whole sequence, for every sequence and every compaction point, given the per-component "
+              "snapshot round trip (restart_reproduces, on C07's regenerated tables; the log suffix is C02/C03, the catalogue "
+              "and last_applied C05); the round trip itself is proved for the configuration component on C09's model "
+              "(config_value_roundtrip, get_after_snapshot_load, publish/update/import_snapshotable; temporary values as a "
+              "visible caveat) and is a hypothesis for the other six components, checked by the correspondence: node R is "
+              "compacted, restarted, killed, compacted-and-interrupted at arbitrary points and must dump the same served "
+              "state as node L that never stops. Found and fixed this way: F22 (stale tail of an interrupted snapshot "
+              "resurrects deleted items)."),
+        note=("trusted: as C07; partial by construction: only the configuration component's encoder is modelled; the other "
+              "components are compared through their own snapshot encoding and the configuration queries; normType "
+              "idempotence is a hypothesis (core String functions do not reduce in the kernel); the race between a snapshot "
+              "build and concurrent applies is not reproduced; 1 open finding F23"),
+        technique="Lean 4 theorem (composition + configuration round trip) + translator tables + differential correspondence across real nodes with restarts"),
     "C02": dict(
         category="proof",
         text=("Theorems (lean/RNacos/Props/C02.lean) over a byte-level model of one log file (header, varint index area, "
